@@ -70,6 +70,13 @@ CHECKS = {
              'nothing, exactly one SubscriptionEnd per live subscription at the right address.',
         note='Trusted: virtual clock patched into subscriptionmgr_base, loop-back transport raising the scripted exceptions, MAX_NOTIFY_ERRORS read at run time.',
         design_ref='6/C08'),
+    'C18': dict(
+        technique='TLA+ spec Scalars.tla (reference lexical<->value semantics over digit sequences) enumerated by TLC; every case executed on the real converters; results judged by TLC (ScalarsTrace.tla)',
+        text='TLC enumerates the abstract domain (ms timestamps incl. dense windows at 2^31/2^40/2^53/1000, decimals with <=18 digits and exponents -18..18, '
+             'durations, date/time forms, in- and out-of-type literals), checks the algebraic laws of the reference, and emits every case; the real '
+             'converters and the attribute/node properties built on them are called for each case and TLC judges value, lexical form, round trip and rejection.',
+        note='Trusted: IEEE-754 arithmetic is executed, not modelled (decided on the enumerated windows and samples); canary records guard the judge.',
+        design_ref='6/C18'),
 }
 
 NOT_YET = 'check not built yet in this round (see DESIGN.md section 10 build order); no claim made'
